@@ -104,6 +104,8 @@ class SumKroneckerLinearOperator(SumLinearOperator):
         logdet_term = None
 
         if inv_quad_rhs is not None:
+            if inv_quad_rhs.dim() == 1:
+                inv_quad_rhs = inv_quad_rhs.unsqueeze(-1)
             solve = self.solve(inv_quad_rhs)
             inv_quad_term = (inv_quad_rhs * solve).sum(-2)
 
